@@ -25,19 +25,24 @@ def ohx(b):
 
 SCHEMES = ["s", "http", "a+b-c.d", "A1", "z9"]
 USERINFOS = [None, None, "", "u", "u:p", ":", "u%41", "a:b:c", "%C3%A9", "!$&'()*+,;="]
-USERINFOS_I = USERINFOS + ["é", "日本"]
+# literal non-ASCII text whose UTF-8 octets alias the ASCII delimiters under `& 0x7f`
+# (AF `/`, BF `?`, A3 `#`, BA `:`, A5 `%`, AE `.`, DB `[`, DD `]`, 80 NUL): a scanner that masks,
+# truncates or sign-extends octets cuts these characters in two
+ALIAS = ["\u00ef", "\u00bf", "\u00a3", "\u00ba", "\u00a5", "\u00ae", "\u06c0", "\u0750", "\u4e2f", "\U0001f4af"]
+USERINFOS_I = USERINFOS + ["é", "日本"] + ALIAS[:6]
 HOSTS = ["", "h", "example.org", "1.2.3.4", "255.255.255.255", "256.1.1.1", "[::1]", "[::]",
          "[1:2:3:4:5:6:7:8]", "[1::8]", "[::1.2.3.4]", "[v1.a:b]", "[vF.x]", "h%41", "a.b-c_d~",
          "%C3%A9", "127.0.0.1", "[1:2:3:4:5:6:1.2.3.4]", "[1:2::7:8]"]
-HOSTS_I = HOSTS + ["é.org", "日本"]
+HOSTS_I = HOSTS + ["é.org", "日本"] + ["h" + a for a in ALIAS[:6]]
 PORTS = [None, None, "", "8", "80", "8080", "0", "65536"]
 SEGS = ["a", "b", "c", "", ".", "..", "a:b", ":", "@", "a@b", "%2E", "%2e%2E", "a%2Fb", "x.y",
         "...", ";p", "a=1", "~", "-", "%41", "1:a", "@:b", "aaa", "d;p"]
-SEGS_I = SEGS + ["é", "日本", "a:é"]
-QUERIES = [None, None, "", "q", "a=b&c=d", "/?", "?", "q%41", "a/b?c", ":@", "%FF"]
-QUERIES_I = QUERIES + ["é", "\ue000", "\U000f0000"]
-FRAGS = [None, None, "", "f", "/?", "a/b", "f%41", ":@", "%C3%A9"]
-FRAGS_I = FRAGS + ["é"]
+SEGS_I = SEGS + ["é", "日本", "a:é"] + ALIAS + ["na\u00efve", "\u00bfq", "1\u00a3"]
+QUERIES = [None, None, "", "q", "a=b&c=d", "/?", "?", "q%41", "a/b?c", ":@", "%FF", "@", "u@h:8", "t=1:2",
+           "//x@y/z"]
+QUERIES_I = QUERIES + ["é", "\ue000", "\U000f0000"] + ALIAS[:5]
+FRAGS = [None, None, "", "f", "/?", "a/b", "f%41", ":@", "%C3%A9", "@", "u@h:8", "L1:2", "//x@y"]
+FRAGS_I = FRAGS + ["é"] + ALIAS[:5]
 
 
 def fam_lists(f):
@@ -494,7 +499,10 @@ def stream_pathmut(rng, tier):
 def stream_authmut(rng, tier):
     """C11"""
     U, H, _, _, _ = fam_lists("u")
-    tails = ["", "/", "/p", "/p?q#f", "?q", "#f", "//a"]
+    # tails whose query / fragment / path contain the authority's own delimiters: a scanner that
+    # runs past the end of the authority finds them
+    hostile = ["?@", "#@", "?u@h:1", "#u@h:1", "/@", "/:@", "?:9", "#:9", "?a@b#c@d"]
+    tails = ["", "/", "/p", "/p?q#f", "?q", "#f", "//a"] + hostile
     vals_u = [None, "", "u", "longuser", "u:p"]
     vals_h = ["", "h", "longhost.example", "[::1]", "1.2.3.4"]
     vals_p = [None, "", "1", "8080"]
@@ -503,10 +511,12 @@ def stream_authmut(rng, tier):
     auths = [("" if u is None else u + "@") + h + ("" if p is None else ":" + p)
              for u in [None, "", "u", "u:p"] for h in ["", "h", "[::1]", "1.2.3.4"] for p in [None, "", "1"]]
     for a in auths:
-        for t in tails if tier == "thorough" else ["", "/p?q#f"]:
+        for t in tails if tier == "thorough" else ["", "/p?q#f"] + hostile[:5]:
             for pre in ["s:", ""]:
                 b = pre + "//" + a + t
                 for o1 in single:
+                    if tier != "thorough" and t in hostile and rng.random() < 0.5:
+                        continue
                     yield "hist u ref %s am[%s]" % (hx(b), o1)
                     if tier == "thorough" or rng.random() < 0.15:
                         for o2 in single:
@@ -514,8 +524,11 @@ def stream_authmut(rng, tier):
     n = 3000 if tier == "quick" else 100000
     for _ in range(n):
         f = rng.choice("ui")
-        b = rng.choice(SCHEMES) + "://" + rand_authority(rng, f) + rand_path(rng, f, "abempty") + \
-            rng.choice(["", "?q", "#f", "?q#f"])
+        _, _, _, Q, F = fam_lists(f)
+        q, fr = rng.choice(Q), rng.choice(F)
+        b = rng.choice(SCHEMES) + "://" + rand_authority(rng, f) + \
+            rand_path(rng, f, rng.choice(["abempty", "empty"])) + \
+            ("" if q is None else "?" + q) + ("" if fr is None else "#" + fr)
         ops = am_ops(rng, f, rng.choice([1, 2, 3, 5, 8]))
         yield "hist %s %s %s am[%s]" % (f, rng.choice(["ref", "full"]), hx(b), ";".join(ops))
 
@@ -748,11 +761,25 @@ def stream_routes(rng, tier):
             yield "ctor %s %s" % (kind, hx(mutate(rng, s)))
         for b in BAD_UTF8:
             yield "ctor %s %s" % (kind, hx(b))
+    # conversions from sibling types are routes in too: feed the full types with references
+    # (where the reference can be built, converting it must agree with the target's constructor)
+    rel = ["?a:b", "#a:b", "foo?k=v:w", "?q#time=12:30", "a/b?c:d", "./a:b", "/a:b", "//h:80/p", "a:b", "a:", ":a",
+           "//h?a:b", "p#x:y", "?é:b", "é?a:b", "", "?", "#"]
+    for kind in ["uri", "iri", "uriRef", "iriRef"]:
+        f = "i" if kind.startswith("i") else "u"
+        for r in rel:
+            if f == "i" or "é" not in r:
+                yield "ctor %s %s" % (kind, hx(r))
+        for _ in range(n):
+            yield "ctor %s %s" % (kind, hx(rand_ref(rng, rng.choice("ui"))))
 
 
-DATA_MT = ["", "text/plain", "a", "image/png", "a#b", "a/b+c", "text/plain;charset=utf-8", "a;x=1", "é", "a b", "A.-_^!$&"]
+DATA_MT = ["", "text/plain", "a", "image/png", "a#b", "a/b+c", "text/plain;charset=utf-8", "a;x=1", "é", "a b", "A.-_^!$&",
+           "a;base64;x=1", "base64", "a;x=base64"]
 DATA_BODY = ["", "A", "SGVsbG8=", "SGVsbG8", "QQ==", "QQ=", "Q", "QR==", "A%20B", "a,b", "a;b", "#f", "a#f", "?q",
-             "////", "+/+/", "AAAA", "AAA=", "AAB=", "=", "====", "QUJD", "QUJDRA==", "é"]
+             "////", "+/+/", "AAAA", "AAA=", "AAB=", "=", "====", "QUJD", "QUJDRA==", "é",
+             # the data part may itself contain the markers the accessors look for
+             ";base64,", "a;base64,Yg==", ";base64,QQ==", "x,y;base64,z", ";base64", "data:a,b"]
 
 
 def stream_dataurl(rng, tier):
@@ -798,6 +825,19 @@ def stream_pct(rng, tier):
         yield "pct %s %s %s" % (f, rng.choice(kinds), hx(s))
     for s in exhaustive("a%4C3é", 4 if tier == "quick" else 5):
         yield "pct i segment %s" % hx(s)
+    # components reached from a whole reference (parts, authority parts, segment iteration)
+    for a in ALIAS:
+        for t in ["/na%sve", "/%s", "//u%s@h%s/%s/x?%s#%s", "%s/%s", "s://h/a%s/../%s", "?%s", "#%s"]:
+            yield "pctref i %s" % hx(t.replace("%s", a))
+    for a in PCT_ATOMS:
+        for t in ["/x%s", "//h/%s/%s?%s#%s", "s:%s"]:
+            yield "pctref i %s" % hx(t.replace("%s", a))
+            if "é" not in a:
+                yield "pctref u %s" % hx(t.replace("%s", a))
+    n = 1500 if tier == "quick" else 60000
+    for _ in range(n):
+        f = rng.choice("ui")
+        yield "pctref %s %s" % (f, hx(rand_ref(rng, f)))
 
 
 def stream_ptr(rng, tier):
@@ -808,6 +848,10 @@ def stream_ptr(rng, tier):
             yield "ptr u full %s" % hx(s)
     for s in exhaustive("é:/?#", 4):
         yield "ptr i ref %s" % hx(s)
+    for s in ["?time=10:30", "#L10:5", "page?a:b", "pagé?clé=à:b", "a?b#c:d", "?a:b#c:d", "s:?a:b", "//h?a:b", "/p?a:b@c"]:
+        yield "ptr i ref %s" % hx(s)
+        if "é" not in s:
+            yield "ptr u ref %s" % hx(s)
     n = 3000 if tier == "quick" else 100000
     for _ in range(n):
         f = rng.choice("ui")
